@@ -250,6 +250,29 @@ def header_lengths(r, F):
               "entry len = header + key_len + value_len", "affine form: %s" % affine.pretty(form), "the recorded entry length is `%s`" % affine.pretty(form), ln=infos[0][2].ln if infos else fn.lo)
 
 
+def decode_bounds(r, F):
+    """EntryDeserializer::deserialize rejects a buffer only when it is strictly shorter than key_len + value_len: an entry whose payload ends exactly at
+    the end of the bytes that were read (no page padding) must decode. Decision table of the (buffer.len(), value_len + key_len) comparison."""
+    fn = F.method("foyer_storage::serde::EntryDeserializer", "deserialize")
+    dv = [b.idx for b in fn.calls_to(r"EntryDeserializer::deserialize_value$")]
+    if not dv:
+        raise AnchorMissing("EntryDeserializer::deserialize: deserialize_value call not found")
+    lens = lambda f, op: op.place is not None and backslice(f, op, "dep").args == {1}
+    need = lambda f, op: op.place is not None and {2, 3} <= set(backslice(f, op, "dep").args) and 1 not in backslice(f, op, "dep").args
+    found = tables.find_cmp(fn, lens, need, "comparison of the buffer length with value_len + key_len")
+    r.require(len(found) == 1, fn, "one bounds test", "a single length test precedes the slicing", "EntryDeserializer::deserialize has %d length tests" % len(found), ln=fn.lo)
+    c, fl = found[0]
+    t = tables.table(fn, c, fl, dv)
+    r.require(t[0] == "no" and t[1] != "no" and t[2] != "no", fn, "decode iff len >= value_len + key_len", "(len<need, =, >) -> decoded: %s" % (t,),
+              "EntryDeserializer::deserialize decodes on (len<need, len=need, len>need) = %s: a buffer that holds exactly the entry (payload ending on a page boundary) is rejected as OutOfRange "
+              "— the caller treats that as corruption, drops the index entry and reports a miss — or a short buffer is sliced" % (t,), ln=c.ln if hasattr(c, "ln") else fn.lo)
+    # the accepted edge must dominate every slicing of the buffer
+    idx = [b.idx for b in fn.blocks if not b.cleanup and b.term.k == "call" and re.search(r"ops::Index(Mut)?.*::index(_mut)?$|SliceIndex.*::index$", b.term.callee or "")]
+    acc = c.target("eq" if not fl else "eq")
+    r.require(bool(idx) and all(fn.edge_guards(c.sw.idx, acc, i) for i in idx), fn, "bounds test guards every slice", "%d slicing site(s) behind the test" % len(idx),
+              "a slice of the buffer is taken without the length test guarding it (a truncated read panics instead of reporting OutOfRange)", ln=fn.lo)
+
+
 def size_limit(r, F):
     fn = F.fn("foyer_common::error::Error::io_error")
     ok = False
@@ -275,4 +298,5 @@ def run(chk, F):
     from rules import C09
     chk.run_rule("C08.size-limit-siblings", "push and push_slice agree on the max_entry_size comparison", 1, C09.size_limit_siblings, F)
     chk.run_rule("C08.header-lengths", "the header records the serializer's lengths, the payload checksum and the caller's hash/sequence/tag; entry len = header + key + value", 7, header_lengths, F)
+    chk.run_rule("C08.decode-bounds", "deserialize rejects a buffer only when strictly shorter than the recorded lengths; the test guards every slice", 3, decode_bounds, F)
     chk.run_rule("C08.size-limit", "a WriteZero io error becomes ErrorKind::BufferSizeLimit", 1, size_limit, F)
